@@ -54,12 +54,15 @@ BOUNDS = {
              "plus 1x4, 4x1, 2x4, 4x2 with ALL masks (>= 1 unmasked pixel, forked), 3x4 and 4x3 with a fixed mask family (unmasked, checkerboard, one "
              "corner, first row, last column); pixel values of Array2D / Kernel2D and both pixel scales (> 0, isotropic and anisotropic) symbolic reals. "
              "Mask2D.from_fits options invert in {F,T} x resized_mask_shape in {None, (H+2,W+2), (H+2,W), (H-2,W-2) when >= 1}. 1D (Array1D with mask, "
-             "Mask1D): lengths 1..5, all masks, symbolic values and scale. File-system model: nested missing directories, existing path with / without "
-             "overwrite (old and new content of different shapes, symbolic), overwrite of an absent path, bare file name; 2D and 1D writers. "
+             "Mask1D): lengths 1..5, all masks, symbolic values and scale. File-system histories: absent -> write -> refused write -> overwrite=True with "
+             "other content, shape and pixel scale -> overwrite=True on an absent path, for EVERY writer (Array2D, Kernel2D, Mask2D, Array1D, Mask1D, "
+             "Imaging) crossed with EVERY path kind (absolute with three missing directory levels, absolute in an existing directory, relative path with "
+             "missing directories, bare file name in the current directory); contents and both pixel scales symbolic (masks: old 1x3 / new 2x1 bits "
+             "forked; Imaging 3x3 -> 3x4). "
              "Multi-extension files: 3 HDUs written through hdu_for_output, every hdu index 0..2 read back (Array2D, Kernel2D, Mask2D, Array1D; shapes "
              "2x3, 3x2, 1x3, 3x1). Imaging.output_to_fits -> from_fits: 3x3 data / noise map (> 0), 3x3 PSF with unit sum, all symbolic.",
     "thorough": "as quick, but ALL masks forked for every 2D shape with H*W <= 12 and H,W <= 8 (incl. 3x4, 4x3, 2x5, 5x2, 2x6, 6x2, 1x5..1x8, 5x1..8x1; for "
-                "more than 9 pixels the Mask2D.from_fits options are {None, (H+2,W+2)} x invert), 1D lengths 1..8, Imaging also 3x4 data",
+                "more than 9 pixels the Mask2D.from_fits options are {None, (H+2,W+2)} x invert), 1D lengths 1..8, Imaging also 3x4 data; file-system histories with three content-shape pairs per array writer and two per mask writer",
 }
 OUTSIDE = [
     "astropy's serialiser itself (byte layout, BITPIX/dtype conversion, BSCALE/BZERO scaling, header-card float formatting to 16 digits): only exercised "
